@@ -160,6 +160,20 @@ def gen_positions(rng, n, cell, dist, c):
             P.append(list(p))
             if len(P) < n:
                 P.append(list(q))
+    elif dist == "degenerate":   # zero extent along one, two or three axes (planes, lines, a repeated point, 2-D lattices)
+        shape = rng.choice(["plane-xy", "plane-xz", "plane-yz", "line-x", "line-y", "line-z", "point", "lattice-xy", "lattice-xz", "lattice-yz"])
+        fixed = {"plane-xy": [2], "plane-xz": [1], "plane-yz": [0], "line-x": [1, 2], "line-y": [0, 2], "line-z": [0, 1],
+                 "point": [0, 1, 2], "lattice-xy": [2], "lattice-xz": [1], "lattice-yz": [0]}[shape]
+        base = [rng.random() * diag[k] for k in range(3)]
+        step = rng.choice([0.5, 0.8, 1.0, 1.3]) * cn
+        for i in range(n):
+            if shape.startswith("lattice"):
+                p = [base[k] + step * rng.randint(0, 5) for k in range(3)]
+            else:
+                p = [rng.random() * diag[k] for k in range(3)]
+            for k in fixed:
+                p[k] = base[k]
+            P.append(p)
     elif dist == "frac":      # fractional coordinates of the cell vectors (typical MD data)
         for _ in range(n):
             f = [rng.random() for _ in range(3)]
@@ -197,8 +211,9 @@ def gen_cutoff(rng, cell, mode):
     return max(8, int(rng.uniform(0.1, 0.5) * w * G))
 
 
-def gen_case(rng, api, n, kind, dist, cmode, periodic=True, pattern=None):
-    cell = gen_cell(rng, kind, pattern)
+def gen_case(rng, api, n, kind, dist, cmode, periodic=True, pattern=None, cell="gen"):
+    if cell == "gen":
+        cell = gen_cell(rng, kind, pattern)
     if cell is None and dist in ("frac", "faces"):
         dist = "uniform"
     c = gen_cutoff(rng, cell, cmode)
@@ -272,6 +287,49 @@ def gen_coincident_case(rng, api, kind, pattern=None):
     return case
 
 
+def gen_seq_case(rng, api):
+    """history across calls: one multi-frame trajectory whose cell changes from frame to frame ("traj"), or consecutive
+    calls in one process ("calls"); consecutive cells share a_x and differ in ONE other respect (b, c, an angle,
+    triclinic <-> orthorhombic with the same lengths, 3x3x3 -> 3x4x5)"""
+    mode = rng.choice(["traj", "calls"])
+    T = rng.randint(2, 4)
+    ax = rng.randint(2 * G, 4 * G)
+    cell = rng.choice([{"lengths": [ax, ax, ax], "angles": [90.0, 90.0, 90.0]},
+                       {"lengths": [ax, rng.randint(2 * G, 5 * G), rng.randint(2 * G, 5 * G)], "angles": [90.0, 90.0, 90.0]},
+                       {"lengths": [ax, rng.randint(2 * G, 5 * G), rng.randint(2 * G, 5 * G)],
+                        "angles": [round(rng.uniform(70, 110), 3), round(rng.uniform(70, 110), 3), round(rng.uniform(70, 110), 3)]}])
+    cells = [cell]
+    for _ in range(T - 1):
+        c2 = {"lengths": list(cells[-1]["lengths"]), "angles": list(cells[-1]["angles"])}
+        what = rng.choice(["b", "c", "bc", "alpha", "beta", "gamma", "ortho", "tric"])
+        if what in ("b", "bc"):
+            c2["lengths"][1] = rng.randint(2 * G, 5 * G)
+        if what in ("c", "bc"):
+            c2["lengths"][2] = rng.randint(2 * G, 5 * G)
+        if what in ("alpha", "beta", "gamma"):
+            c2["angles"][{"alpha": 0, "beta": 1, "gamma": 2}[what]] = rng.choice([90.0, round(rng.uniform(70, 110), 3)])
+        if what == "ortho":
+            c2["angles"] = [90.0, 90.0, 90.0]
+        if what == "tric":
+            c2["angles"] = [round(rng.uniform(70, 110), 3) for _ in range(3)]
+        cells.append(c2)
+    wmin = min(min(widths(approx_box(c))) for c in cells)
+    cut = max(8, int(rng.uniform(0.15, 0.5) * wmin * G))
+    n = rng.choice([4, 8, 13, 21])
+    subs = []
+    for c in cells:
+        kind = "ortho" if c["angles"] == [90.0, 90.0, 90.0] else "tric"
+        sub = gen_case(rng, api, n, kind, rng.choice(["uniform", "faces", "outside", "shifted"]), "mid", True, cell=c)
+        sub["c"] = cut
+        sub["kind"] = kind + "/seq-" + mode
+        subs.append(sub)
+    if api == "nb":
+        if mode == "traj":              # one call: one query / haystack for all frames
+            for sub in subs[1:]:
+                sub["query"], sub["hay"] = subs[0]["query"], subs[0]["hay"]
+    return {"api": api, "seq": subs, "mode": mode}
+
+
 def build_cases(ctx, scale=1.0):
     rng = ctx.rng
     quick = ctx.tier == "quick"
@@ -307,6 +365,17 @@ def build_cases(ctx, scale=1.0):
         for api in ("nb", "nb", "nl"):
             for _ in range(int((3 if quick else 25) * scale) or 1):
                 cases.append(gen_coincident_case(rng, api, kind))
+    # degenerate extents without a cell (planes, lines, repeated point, 2-D lattices, two atoms) -- in every run
+    for api in ("nl", "nl", "nb"):
+        for k in range(int((6 if quick else 40) * scale) or 1):
+            per = k % 3 != 2
+            cs = gen_case(rng, api, rng.choice([2, 2, 3, 5, 9, 16, 30]), "none" if per else rng.choice(["ortho", "tric"]), "degenerate",
+                          rng.choice(["low", "mid"]), per)
+            cases.append(cs)
+    # history across calls: per-frame cells in one trajectory / consecutive calls, cells sharing a_x -- in every run
+    for api in ("nb", "nb", "nl"):
+        for _ in range(int((5 if quick else 40) * scale) or 1):
+            cases.append(gen_seq_case(rng, api))
     # medium and large frames
     med = [(200, 5), (600, 1)] if quick else [(200, 40), (600, 12), (1500, 4)]
     for n, cnt in med:
@@ -320,7 +389,7 @@ def build_cases(ctx, scale=1.0):
           [("ortho", "uniform"), ("none", "clustered"), ("cubic", "outside"), ("tric", "uniform"), ("ortho", "boundary")]
     if scale >= 1.0:
         for kind, dist in big:
-            cs = gen_case(rng, "nl", 3000, kind, dist, "low")
+            cs = gen_case(rng, "nl", 1500 if (quick and kind == "none") else 3000, kind, dist, "low")
             if cs["cell"] is None:
                 cs["c"] = int(0.25 * G)
             else:
@@ -605,8 +674,21 @@ def coq_codes(ctx, coq, sizes):
 
 
 def run_cases(ctx, cases, replaying=False):
-    outs = run_impl_robust(ctx, "neigh_impl.py", cases, ("api", "xyz", "cell", "c", "periodic", "query", "hay"),
+    outs = run_impl_robust(ctx, "neigh_impl.py", cases, ("api", "xyz", "cell", "c", "periodic", "query", "hay", "seq", "mode"),
                            crash_out={"box": None, "K": 10, "res": None, "cd": None})
+    ex_c, ex_o = [], []
+    for c, o in zip(cases, outs):
+        if c.get("seq") is None:
+            ex_c.append(c)
+            ex_o.append(o)
+        elif o.get("err") == "NotRun":
+            continue
+        else:
+            so = o.get("seq_out") or [dict(o) for _ in c["seq"]]          # a crash: every frame inherits it
+            for f, (sub, oo) in enumerate(zip(c["seq"], so)):
+                ex_c.append(dict(sub, _origin=c, _f=f))
+                ex_o.append(oo)
+    cases, outs = ex_c, ex_o
     keep = [i for i, o in enumerate(outs) if o.get("err") != "NotRun"]
     cases = [cases[i] for i in keep]
     outs = [outs[i] for i in keep]
@@ -721,7 +803,8 @@ def run_cases(ctx, cases, replaying=False):
             tags = {"api": c["api"], "kind": kind, "outside_cell": not inside, "cell": (c.get("kind") or "").split("/")[0],
                     "nvox_min": nvox,
                     "explained_by": explained if kind == "missing" else None}
-            ctx.fail(desc, c, observed={"detail": detail, "n_atoms": len(c["xyz"]), "cutoff_nm": c["c"] / G},
+            ctx.fail(desc + (" (cell changing between consecutive frames/calls)" if "_origin" in c else ""), c.get("_origin", c),
+                     observed={"detail": detail, "n_atoms": len(c["xyz"]), "cutoff_nm": c["c"] / G, "frame_of_sequence": c.get("_f")},
                      expected="exactly the atoms whose minimum-image distance is below the cutoff (pairs within 1e-5 excluded)",
                      tags=tags, stage="correspond")
     return outs
@@ -731,6 +814,8 @@ def shrink_unlisted(ctx):
     """reduce the atom set of failures that no known finding explains (a few implementation runs)"""
     for f in list(ctx.failures):
         c = f["case"]
+        if "seq" in c:
+            continue
         if f["tags"].get("explained_by") or c["api"] != "nl" or len(c["xyz"]) <= 4 or f["tags"]["kind"] not in ("missing", "spurious"):
             continue
         det = f["observed"]["detail"]
@@ -775,7 +860,7 @@ FIXED_PROBES = [
 
 def correspond(ctx):
     cases = [dict(c) for c in FIXED_PROBES] + build_cases(ctx)
-    ctx.log("cases:", len(cases), "atoms:", sum(len(c["xyz"]) for c in cases))
+    ctx.log("cases:", len(cases), "atoms:", sum(len(c["xyz"]) if "xyz" in c else sum(len(x["xyz"]) for x in c["seq"]) for c in cases))
     run_cases(ctx, cases)
     shrink_unlisted(ctx)
 
